@@ -1,6 +1,7 @@
 import OapiVerif.Model.JsonObj
 import OapiVerif.Proofs.GoJson
 import OapiVerif.Proofs.GoJsonInv
+import OapiVerif.Proofs.GoJsonValid
 /-!
 C07 — Generated models round-trip JSON without loss.
 
@@ -277,6 +278,13 @@ theorem C07_decoded_value_is_typed_and_stable (t : GoTy) (j : JVal) (v : GoVal) 
   rw [hd] at hd'
   cases hd'
   exact ⟨h1, h2, he'⟩
+
+/-- … and what the encoder writes for a stable value of the type is a valid canonical instance: `decode` and `encode`
+are a bijection between the valid instances of a well-formed type and its stable values. -/
+theorem C07_encoded_value_is_valid_instance (t : GoTy) (v : GoVal) (hw : wf t = true) (ht : hasTy t v = true)
+    (hs : stable t v = true) : ∃ j, encode t v = some j ∧ valid t j = true ∧ decode t j = some v := by
+  obtain ⟨j, he, hd⟩ := enc_dec t v hw ht hs
+  exact ⟨j, he, encode_valid t v j hw ht hs he, hd⟩
 
 /-- The validity predicate is met by the extremes of every width (non-vacuity of `C07_json_roundtrip` on integers). -/
 example : valid uint64 (.num 18446744073709551615) = true ∧ valid int64 (.num (-9223372036854775808)) = true ∧
